@@ -319,13 +319,18 @@ mtbl_reader_options *make_reader_options(bool verify, bool madvise)
 {
 	mtbl_reader_options *ro = mtbl_reader_options_init();
 	uint64_t how = optvar_next();
-	// the documented environment override of the madvise option: unset / "0" / "1" / something else.  It must not
+	// the documented environment override of the madvise option: "0" / "1" / something else / empty.  It must not
 	// influence anything but the advice given to the kernel.  (Inherited by the CLI tools the harness starts.)
-	switch ((how >> 8) % 6) {
-	case 0: setenv("MTBL_READER_MADVISE_RANDOM", "0", 1); break;
-	case 1: setenv("MTBL_READER_MADVISE_RANDOM", "1", 1); break;
-	case 2: setenv("MTBL_READER_MADVISE_RANDOM", "yes", 1); break;
-	default: unsetenv("MTBL_READER_MADVISE_RANDOM");
+	// (putenv with static strings: after the first call no allocation happens, which matters to the leak check's heap
+	// accounting - setenv keeps every distinct value it was ever given)
+	{
+		static char e0[] = "MTBL_READER_MADVISE_RANDOM=0", e1[] = "MTBL_READER_MADVISE_RANDOM=1", e2[] = "MTBL_READER_MADVISE_RANDOM=yes", e3[] = "MTBL_READER_MADVISE_RANDOM=";
+		switch ((how >> 8) % 6) {
+		case 0: putenv(e0); break;
+		case 1: putenv(e1); break;
+		case 2: putenv(e2); break;
+		default: putenv(e3);	// present but empty: like unset, neither "0" nor "1"
+		}
 	}
 	auto set_v = [&](bool flipflop) { if (flipflop) mtbl_reader_options_set_verify_checksums(ro, !verify); mtbl_reader_options_set_verify_checksums(ro, verify); };
 	auto set_m = [&](bool flipflop) { if (flipflop) mtbl_reader_options_set_madvise_random(ro, !madvise); mtbl_reader_options_set_madvise_random(ro, madvise); };
